@@ -27,3 +27,37 @@ package blocktransactions
 //@   ensures always_written: calls_BatchWrite == old(calls_BatchWrite) + 1
 //@   ensures slot_back_only_after_write: calls_SlotPut != old(calls_SlotPut) ==> result == nil && calls_SlotPut == old(calls_SlotPut) + 1
 //@   ensures success_returns_slot: result == nil ==> calls_SlotPut == old(calls_SlotPut) + 1
+
+// ---- re-running over blocks that are already migrated (C18) ----------------------------------------
+// A resumed migration may meet blocks whose combined entry is already in place (nothing is left in
+// the old layout for them). Such a block is SKIPPED: nothing is written for it - this is the
+// obligation that fails on the code before the fix of defect F12, where the empty scan result was
+// written over the migrated entry. For every other block exactly one combined entry is written.
+//@ extern func github.com/NethermindEth/juno/core.GetBlockHeaderByNumber
+//@   ensures result1 == nil ==> result0 != nil
+//@ extern func github.com/NethermindEth/juno/core.NewBlockTransactionsFromIterators
+//@ extern func github.com/NethermindEth/juno/db/typed.(Bucket).Put
+//@   logged as BucketPut
+//@ extern func github.com/NethermindEth/juno/db/typed.(Bucket).Has
+//@ extern func github.com/NethermindEth/juno/db/typed.(Bucket).Prefix
+//@ extern func github.com/NethermindEth/juno/db/typed/prefix.(*PrefixedBucket).Prefix
+//@ extern func github.com/NethermindEth/juno/db/typed/prefix.(hasPrefix).Add
+//@ extern func github.com/NethermindEth/juno/db/typed/prefix.(scanState).Scan
+//@ func extractValues
+//@   trusted
+//@ ghost var lastAlreadyMigrated bool
+//@ func (*ingestor).validateCount
+//@   trusted
+//@   sets lastAlreadyMigrated = result0
+//@   ensures result0 ==> result1 == nil
+//@ func (*ingestor).ingestBlock
+//@   props C18
+//@   arith int
+//@   nosafe
+//@   requires c != nil
+//@   modifies *
+//@   assigns lastAlreadyMigrated, calls_BucketPut, arg_BucketPut_database, arg_BucketPut_key, arg_BucketPut_value
+//@   callsite Put@*: this_block_into_the_batch: $1 == batch && $2 == blockNumber
+//@   ensures migrated_block_untouched: result1 == nil && lastAlreadyMigrated ==> calls_BucketPut == old(calls_BucketPut)
+//@   ensures other_blocks_written_once: result1 == nil && !lastAlreadyMigrated ==> calls_BucketPut == old(calls_BucketPut) + 1
+//@   ensures nothing_written_on_error: calls_BucketPut != old(calls_BucketPut) ==> calls_BucketPut == old(calls_BucketPut) + 1
